@@ -210,7 +210,7 @@ def run_program(ctx, rng):
         res = o.value
         vals = res if isinstance(res, (tuple, list)) else [res]
         # ---- aliasing stress on array results of out-of-place steps
-        if not info.get("inplace") and ops_ and rng.random() < 0.6:
+        if not info.get("inplace") and not info.get("shares_by_design") and ops_ and rng.random() < 0.6:
             for y in vals:
                 if not is_array(y) or any(y is v for v in ops_) or not y.blocks:
                     continue
@@ -226,6 +226,8 @@ def run_program(ctx, rng):
                             return
                 break
             continue  # results that were mutated are not fed back
+        if info.get("shares_by_design"):
+            continue  # (a shallow copy: later in-place steps on it would legitimately show in its original)
         for v in vals:
             register(v)
         prog.admit(res)
